@@ -81,7 +81,51 @@ func sigMutants(w *World, it Item) []Item {
 	return out
 }
 
+// c09WriteFaults: a write fault (the state store returns an error) at every durable write of the
+// handler of a reinit message - the one handler that switches signature verification off while it
+// runs. Whatever write fails, verification must be back on afterwards: a message with a stranger's
+// signature is refused without effect.
+func c09WriteFaults(c *Ctx) {
+	w := NewWorld(3, 2, 1)
+	me := w.Users[0]
+	live := "round-c09-fault-live"
+	hLive := w.Honest(live, me)[:2]
+	old := "round-c09-fault-old"
+	body := w.ReDKGOf(dkgPart(w.Honest(old, me)))
+	reinit := w.ReinitItem(old, body, nil, "reinit-ok")
+	forged := w.forgedConfirm(live, "forged-after-faulty-reinit")
+	ref := NewNodeEnv(newEnvDir(c), me)
+	for _, it := range hLive {
+		applyItem(ref, it)
+	}
+	ref.Ctl.record, ref.Ctl.log = true, nil
+	applyItem(ref, reinit)
+	n := len(ref.Ctl.log)
+	ref.Ctl.record = false
+	ref.Close()
+	for k := 0; k < n; k++ {
+		e := NewNodeEnv(newEnvDir(c), me)
+		for _, it := range hLive {
+			applyItem(e, it)
+		}
+		e.Ctl.faultArmed, e.Ctl.faultAfter = true, k
+		cls := applyItem(e, reinit)
+		e.Ctl.faultArmed = false
+		before := e.Snapshot()
+		cls2 := applyItem(e, forged)
+		after := e.Snapshot()
+		e.Close()
+		c.Case("write-fault", false, "skip write-fault", "skip write-fault")
+		if cls2 != "err" || before != after {
+			c.Fail(Failure{Property: "C09", Kind: "forged-accepted-after-faulty-reinit", Signature: map[string]interface{}{"kind": "forged-accepted-after-faulty-reinit"},
+				What:   fmt.Sprintf("after a reinit_dkg message whose durable write %d of %d failed (handler: %s) a message with a stranger's signature was accepted (class %s)", k+1, n, cls, cls2),
+				Replay: map[string]interface{}{"failed_write": k, "writes": n, "reinit_class": cls, "before": before, "after": after}})
+		}
+	}
+}
+
 func scenarioC09(c *Ctx) {
+	defer c09WriteFaults(c)
 	type cfg struct{ n, t int }
 	cfgs := []cfg{{3, 2}}
 	if !c.Quick() {
